@@ -63,3 +63,214 @@ def gen_reorder_inputs(tier):
 
 
 M.contracts['reorder_diff'].domain = 'gen_reorder_inputs'
+
+
+# ------------------------------------------------------------------------------------------------
+# new_advan_trans (C02): the ADVAN/TRANS pair written to $SUBROUTINES is one PREDPP accepts, the
+# ADVAN is the first library routine whose structure matches, and nonlinear systems get ADVAN13
+# without a TRANS.  The structure predicates (match_advanN, is_nonlinear_odes, ...) are sympy /
+# graph code and stay abstract: uninterpreted predicates of the model.
+# PREDPP reference (NONMEM Users Guide VI, $SUBROUTINES): ADVAN1/2 accept TRANS1, TRANS2;
+# ADVAN3/4 accept TRANS1, TRANS3, TRANS4, TRANS5, TRANS6; ADVAN11/12 accept TRANS1, TRANS4, TRANS6;
+# the general routines (ADVAN5, 6, 7, 8, 9, 13) accept TRANS1 only.
+# ------------------------------------------------------------------------------------------------
+NModel = Opaque('NModel')
+TRUSTED += [
+    'new_advan_trans: get_odes, is_nonlinear_odes, has_zero_order_inputs, match_advan1..12, the $SUBROUTINES '
+    'option lookup and the "elimination rate is a ratio of two symbols" test are uninterpreted functions of the '
+    'model (sympy / graph code; exercised by the bounded code generation check contracts/b_nm.py)',
+    'PREDPP table of the TRANS routines each ADVAN accepts, transcribed by hand',
+]
+
+ADVAN_OF = ("('ADVAN13' if is_nonlinear_odes(model) or has_zero_order_inputs(model) else "
+            "'ADVAN1' if match_advan1(get_odes(model)) else 'ADVAN2' if match_advan2(model.statements) else "
+            "'ADVAN3' if match_advan3(get_odes(model)) else 'ADVAN4' if match_advan4(model.statements) else "
+            "'ADVAN11' if match_advan11(get_odes(model)) else 'ADVAN12' if match_advan12(model.statements) else "
+            "'ADVAN5')")
+VALID = ("((result[0] in ('ADVAN1', 'ADVAN2') and result[1] in ('TRANS1', 'TRANS2')) or "
+         "(result[0] in ('ADVAN3', 'ADVAN4') and result[1] in ('TRANS1', 'TRANS3', 'TRANS4', 'TRANS5', 'TRANS6')) or "
+         "(result[0] in ('ADVAN11', 'ADVAN12') and result[1] in ('TRANS1', 'TRANS4', 'TRANS6')) or "
+         # general routines: the callers (update_needed_pk_parameters, to_des, from_des) do not consume the TRANS
+         # component and from_des decides the text written to $SUBROUTINES, so it is not constrained here
+         # (constraining it to TRANS1 was a false alarm: ('ADVAN5', 'TRANS4') is returned but never written)
+         "result[0] in ('ADVAN5', 'ADVAN7', 'ADVAN13'))")
+
+c = M.contract(
+    'new_advan_trans', params={'model': NModel},
+    ensures=[
+        f'result[0] == {ADVAN_OF}',
+        'result[2] == is_nonlinear_odes(model) and result[3] == has_zero_order_inputs(model)',
+        # nonlinear systems are written as $DES for ADVAN13 and have no TRANS
+        '(result[0] == "ADVAN13" and result[1] is None) if is_nonlinear_odes(model) else True',
+        # otherwise the pair is one PREDPP accepts
+        f'{VALID} if not is_nonlinear_odes(model) else True',
+        # a TRANS1 parametrisation (micro constants) is valid everywhere and is kept
+        '(result[1] == "TRANS1") if (not is_nonlinear_odes(model) and old_trans(model) == "TRANS1") else True',
+    ],
+    domain='gen_models')
+c.prop = 'C02'
+
+
+def _symbolic_advan():
+    import z3
+    from pyvc import sym
+    from pyvc.symexec import Val, PyTuple
+    from pyvc.sym import TBool, TStr, TOption, TSeq, TOpaque
+
+    model = NModel.resolve()
+    OS = TOption(TStr)
+    Rec = TOpaque('SubsRecord', {})
+    Recs = TSeq(Rec)
+    Odes = TOpaque('OdesOf', {})
+    Stmts = TOpaque('StatementsOf', {})
+    Ex = TOpaque('RateExpr', {})
+    Cmt = Opaque('Cmt').resolve()
+    recs = z3.Function('subroutines_records', model.sort(), Recs.sort())
+    trans_opt = z3.Function('trans_option', Rec.sort(), OS.sort())
+    odes_of = z3.Function('get_odes', model.sort(), Odes.sort())
+    stmts_of = z3.Function('statements_of', model.sort(), Stmts.sort())
+    central = z3.Function('central_compartment', Odes.sort(), Cmt.sort())
+    flow = z3.Function('get_flow', Odes.sort(), Cmt.sort(), Cmt.sort(), Ex.sort())
+    numer = z3.Function('numerator', Ex.sort(), Ex.sort())
+    denom = z3.Function('denominator', Ex.sort(), Ex.sort())
+    is_sym = z3.Function('is_symbol', Ex.sort(), z3.BoolSort())
+    preds = {}
+    for nm, dom in (('is_nonlinear_odes', model), ('has_zero_order_inputs', model), ('match_advan1', Odes),
+                    ('match_advan2', Stmts), ('match_advan3', Odes), ('match_advan4', Stmts),
+                    ('match_advan11', Odes), ('match_advan12', Stmts)):
+        preds[nm] = (z3.Function(nm, dom.sort(), z3.BoolSort()), dom)
+
+    def has_ty(v, ty):
+        return isinstance(v, Val) and v.ty == ty
+
+    @M.intrinsic('attr:internals')
+    def _internals(ex, st, args, kwargs, node):
+        return args[0] if has_ty(args[0], model) else NotImplemented
+
+    @M.intrinsic('attr:control_stream')
+    def _cs(ex, st, args, kwargs, node):
+        return args[0] if has_ty(args[0], model) else NotImplemented
+
+    @M.intrinsic('attr:statements')
+    def _stmts(ex, st, args, kwargs, node):
+        return Val(Stmts, stmts_of(args[0].t)) if has_ty(args[0], model) else NotImplemented
+
+    def records(ex, st, m):
+        t = recs(m)
+        ex.ops(st).known(Recs, t)
+        return t
+
+    @M.intrinsic('method:get_records')
+    def _get_records(ex, st, args, kwargs, node):
+        return Val(Recs, records(ex, st, args[0].t)) if has_ty(args[0], model) else NotImplemented
+
+    @M.intrinsic('method:get_option_startswith')
+    def _opt(ex, st, args, kwargs, node):
+        return Val(OS, trans_opt(args[0].t)) if has_ty(args[0], Rec) else NotImplemented
+
+    M.intrinsics['get_odes'] = lambda ex, st, a, kw, n: Val(Odes, odes_of(a[0].t))
+    for nm, (fn, dom) in preds.items():
+        def mk(fn, dom):
+            return lambda ex, st, a, kw, n: Val(TBool, fn(ex.to_term(a[0], dom, st)))
+        M.intrinsics[nm] = mk(fn, dom)
+
+    def _old_trans(ex, st, a, kw, n):
+        # spec function: the TRANS option of the first $SUBROUTINES record, None without such a record
+        t = records(ex, st, a[0].t)
+        return Val(OS, z3.If(Recs.f_len(t) > 0, trans_opt(Recs.f_at(t, 0)), OS.none()))
+
+    M.intrinsics['old_trans'] = _old_trans
+
+    @M.intrinsic('attr:central_compartment')
+    def _central(ex, st, args, kwargs, node):
+        return Val(Cmt, central(args[0].t)) if has_ty(args[0], Odes) else NotImplemented
+
+    M.consts['output'] = Opaque('Cmt')
+
+    @M.intrinsic('method:get_flow')
+    def _flow(ex, st, args, kwargs, node):
+        if has_ty(args[0], Odes):
+            return Val(Ex, flow(args[0].t, ex.to_term(args[1], Cmt, st), ex.to_term(args[2], Cmt, st)))
+        return NotImplemented
+
+    @M.intrinsic('method:as_numer_denom')
+    def _nd(ex, st, args, kwargs, node):
+        if has_ty(args[0], Ex):
+            return PyTuple([Val(Ex, numer(args[0].t)), Val(Ex, denom(args[0].t))])
+        return NotImplemented
+
+    @M.intrinsic('method:is_symbol')
+    def _issym(ex, st, args, kwargs, node):
+        return Val(TBool, is_sym(args[0].t)) if has_ty(args[0], Ex) else NotImplemented
+
+
+try:
+    import z3  # noqa: F401
+    _symbolic_advan()
+except ImportError:
+    pass
+
+
+def _native_advan():
+    def lazy(name):
+        def f(*a):
+            import pharmpy.model.external.nonmem.update as u
+            return getattr(u, name)(*a)
+        return f
+
+    for nm in ('is_nonlinear_odes', 'has_zero_order_inputs', 'get_odes', 'match_advan1', 'match_advan2',
+               'match_advan3', 'match_advan4', 'match_advan11', 'match_advan12'):
+        M.natives[nm] = lazy(nm)
+
+    def old_trans(model):
+        subs = model.internals.control_stream.get_records('SUBROUTINES')
+        return subs[0].get_option_startswith('TRANS') if subs else None
+
+    M.natives['old_trans'] = old_trans
+
+
+_native_advan()
+
+
+def gen_models(tier):
+    """in-memory models just before code generation: example models after one or two structural setters
+    (the model passed to new_advan_trans still carries the old $SUBROUTINES record)"""
+    import warnings
+    warnings.simplefilter('ignore')
+    import pharmpy.modeling as pm
+
+    starts = [pm.load_example_model('pheno')]
+    starts.append(pm.set_michaelis_menten_elimination(starts[0]))
+    starts.append(pm.set_first_order_absorption(starts[0]))
+    setters = [
+        lambda m: pm.set_peripheral_compartments(m, 1), lambda m: pm.set_peripheral_compartments(m, 2),
+        lambda m: pm.set_peripheral_compartments(m, 3), pm.set_first_order_absorption, pm.set_zero_order_absorption,
+        pm.set_michaelis_menten_elimination, pm.set_first_order_elimination, pm.set_mixed_mm_fo_elimination,
+        pm.set_instantaneous_absorption, lambda m: pm.set_transit_compartments(m, 2),
+    ]
+    import pharmpy.model.external.nonmem.update as u
+    seen = []
+    orig = u.new_advan_trans
+
+    def spy(model):
+        seen.append(model)
+        return orig(model)
+
+    u.new_advan_trans = spy
+    try:
+        for s0 in starts:
+            for f in setters:
+                try:
+                    m1 = f(s0)
+                except Exception:
+                    continue
+                if tier == 'thorough':
+                    for g in setters:
+                        try:
+                            g(m1)
+                        except Exception:
+                            pass
+    finally:
+        u.new_advan_trans = orig
+    for m in seen:
+        yield {'model': m}
